@@ -453,7 +453,7 @@ def runSub (st : LexState) (sub : SubLexer) (b : UInt8) (r : Bytes) (nlBefore : 
        else if c == 0x25 then keep (1 + a + 1 + countBinary r') (.rNumberLiteral .nBinary)
        else if isDigit c then keep (1 + a + 1 + decNumberRest r') (.rNumberLiteral .nDecimal)
        else if isAlpha c || c == 0x5F then keep (1 + a + 1 + idLen r') .rIdentifier
-       else if c ≥ 0x80 then keep (1 + a + 1 + unicodeIdent r') .rIdentifier
+       else if c ≥ 0x80 && !(List.isPrefixOf [0xE3, 0x80, 0x80] (c :: r')) then keep (1 + a + 1 + unicodeIdent r') .rIdentifier
        else keep (1 + a) .rUnknown
      | [] => keep (1 + a) .rUnknown)
   | .binary_number_literal => keep (1 + countBinary r) (.rNumberLiteral .nBinary)
